@@ -626,9 +626,7 @@ def mod(a, b):
 def wrap(x, lo, hi, range=None): # *** BUG: AbstractFunction usa sin range. tiene dos firmas, sin y con range, la implementación varía sutilmente.
 # INT: abajo define wrap para int sin range como:
 # return sc_mod(in - lo, hi - lo + 1) + lo;
-    if type(x) is int:
-        lo = int(lo)
-        hi = int(hi)
+    if type(x) is int and type(lo) is int and type(hi) is int:
         return mod(x - lo, hi - lo + 1) + lo
     # // avoid the divide if possible
     # if (in >= hi) {
@@ -667,9 +665,7 @@ def fold(x, lo, hi, range=None, range2=None): # *** BUG: ídem wrap con range y 
 # int c = sc_mod(in - lo, b2);
 # if (c>b) c = b2-c;
 # return c + lo;
-    if type(x) is int:
-        lo = int(lo)
-        hi = int(hi)
+    if type(x) is int and type(lo) is int and type(hi) is int:
         b = hi - lo
         b2 = b + b
         c = mod(x - lo, b2)
@@ -747,8 +743,7 @@ def max(a, b):
 def round(x, quant=1):
     # return quant==0. ? x : sc_floor(x/quant + .5) * quant;
     # INT return quant==0 ? x : sc_div(x + quant/2, quant) * quant;
-    if type(x) is int:
-        quant = int(quant)
+    if type(x) is int and type(quant) is int:
         if quant == 0:
             return float(x)
         else:
@@ -762,8 +757,7 @@ def round(x, quant=1):
 def roundup(x, quant=1):
     # return quant==0. ? x : sc_ceil(x/quant) * quant;
     # INT return quant==0 ? x : sc_div(x + quant - 1, quant) * quant;
-    if type(x) is int:
-        quant = int(quant)
+    if type(x) is int and type(quant) is int:
         if quant == 0:
             return float(x)
         else:
@@ -777,8 +771,7 @@ def roundup(x, quant=1):
 def trunc(x, quant=1):
     # return quant==0. ? x : sc_floor(x/quant) * quant;
     # INT: return quant==0 ? x : sc_div(x, quant) * quant;
-    if type(x) is int:
-        quant = int(quant)
+    if type(x) is int and type(quant) is int:
         if quant == 0:
             return float(x)
         else:
@@ -800,7 +793,9 @@ def clip(x, lo, hi):
     #./common/SC_BoundsMacros.h:
     #inline T sc_clip(T x, U lo, V hi) return std::max(std::min(x, (T)hi), (T)lo);
     T = type(x)
-    return max(min(x, T(hi)), T(lo))
+    if T is int and (type(lo) is float or type(hi) is float):
+        T = float
+    return max(min(T(x), T(hi)), T(lo))
 
 @scbuiltin.binop
 def hypot(x, y):
